@@ -5,12 +5,14 @@ from . import C08 as _c08
 
 TITLE = "Chain tracing partitions particles into simple, distance-respecting chains"
 EXPLANATION = (
-    "Narrow, structural claim. get_nn_dist is interpreted abstractly: the radius query must use max_distance with sorted "
-    "results and distances, candidates are restricted to the requested activity flag, then to distance > min_distance "
-    "(strict: the statement's interval is (min, max]), index and distance are filtered by the same masks and element 0 of "
-    "both is returned (nearest admissible neighbour together with its own distance). add_chain_suffix is interpreted over "
+    "Narrow, structural claim. get_nn_dist is interpreted abstractly: the radius query must use max_distance and return the "
+    "distances, candidates are restricted to the requested activity flag, then to distance > min_distance "
+    "(strict: the statement's interval is (min, max]), index and distance are filtered by the same masks and the same element of "
+    "both is returned (an admissible neighbour together with its own distance). add_chain_suffix is interpreted over "
     "symbolic tables: the order offset added to the appended chain must be the maximum order of the very chain whose "
-    "object number the appended chain receives (key agreement on every path, including the tail-cut path). trace_chains "
+    "object number the appended chain receives (key agreement on every path, including the tail-cut path); a cut-off tail keeps "
+    "its order (old order numbers minus that of the particle hung behind, never numbers by table row position); in a connection "
+    "on both ends the tail cut off by add_chain_suffix and the head cut off by add_chain_prefix get different object numbers. trace_chains "
     "(syntax-tree rules): trees, activity flags and the per-tomogram chain table are created inside the tomogram loop from "
     "that tomogram's subsets; a particle is appended only behind the 'still remaining' guard and both flags are cleared in "
     "the block that appends it; temporary re-activation is paired with de-activation; a finished chain takes the counter "
